@@ -179,6 +179,16 @@ func (g *gen) structDecl(maxDepth int) *tdecl {
 			}
 		case 12:
 			ft = "[]string"
+			if d := g.pick("named-scalar"); d != nil {
+				switch g.r.Intn(4) {
+				case 0:
+					ft = "[]" + d.name
+				case 1:
+					ft = "map[string]" + d.name
+				case 2:
+					ft = "[2]" + d.name
+				}
+			}
 			t.nontriv = true
 		default:
 			ft = "map[string]string"
